@@ -93,6 +93,8 @@ def run_case(driver, seed, part, i, res, forced=None):
             elif spec["kind"] == "send-cancel":
                 spec["kind"] = "send"
         t_loss = r.choice([0.003, 0.01, 0.02, 0.03, 0.045, 0.06, 0.08, 0.1, 0.15])
+    # loud: send() reports the loss to its caller (CommunicationError) instead of retrying - the lock must be given up all the same
+    loud = loss and r.random() < 0.35
     picker = simlib.Picker(r) if forced is None else simlib.Picker(r, prefix=forced["prefix"], default="first")
     if forced is not None:
         loss = False
@@ -111,6 +113,7 @@ def run_case(driver, seed, part, i, res, forced=None):
     sim = simlib.Sim(driver, picker, answer=answer, hid_kwargs={"reconnect_interval": 0.5} if loss else None)
     outcome = {}
     gens = {}
+    progress_log = {}
 
     def gen_for(c, spec):
         def g():
@@ -149,12 +152,16 @@ def run_case(driver, seed, part, i, res, forced=None):
                 await d.send(cmd, in_transaction=True)
             return "manual"
         gens[c] = gen_for(c, spec)
+        if c % 2 == 0:
+            # with a progress callback: progress items reach it in order, once each, while the transaction is held
+            progress_log[c] = []
+            return await d.run_sequence(gens[c], progress=lambda p, c=c: progress_log[c].append((p.message, d.transaction_lock.locked())))
         return await d.run_sequence(gens[c])
 
     async def main(sim):
         await sim.connect()
         if loss:
-            sim.driver.exceptions_on_send = False
+            sim.driver.exceptions_on_send = loud
             sim.world.at(sim.world.now + t_loss, lambda: sim.dev.lose(r.choice(["eof", "oserror"])))
             sim.world.at(sim.world.now + t_loss + 0.3, sim.dev.restore)
         tasks = []
@@ -201,6 +208,20 @@ def run_case(driver, seed, part, i, res, forced=None):
             return
         if loss:
             res.hit("loss_runs")
+        for c, plog in progress_log.items():
+            spec = callers[c]
+            n_prog = sum(1 for w_, x_ in spec["items"] if w_ == "progress")
+            res.hit("progress_callbacks_checked")
+            if any(not held for (_m, held) in plog):
+                res.violation(f"C15/{driver}/progress-outside-transaction", "a progress callback ran while the transaction lock was free", wit)
+            msgs = [m for (m, _h) in plog]
+            if spec.get("badclean") == "yield" and msgs and msgs[-1].startswith("cleanup that ignores"):
+                msgs = msgs[:-1]          # the misbehaving cleanup's own item (see gen_for)
+            plog = plog[:len(msgs)]
+            if msgs != [f"caller {c}"] * len(msgs) or len(msgs) > n_prog:
+                res.violation(f"C15/{driver}/progress-items", f"caller {c}: progress callback received {plog}, the sequence has {n_prog} progress items", wit)
+            elif spec["kind"] == "seq" and not loss and outcome.get(c) == ("done", c) and len(plog) != n_prog:
+                res.violation(f"C15/{driver}/progress-items", f"caller {c}: sequence completed, {len(plog)} of {n_prog} progress items delivered", wit)
         # ---- expected per-caller streams and units (not under loss: retries legitimately repeat frames)
         for c, spec in enumerate(callers if not loss else []):
             in_seq = spec["kind"].startswith("seq") or spec["kind"] == "manual"
@@ -298,7 +319,8 @@ def run_case(driver, seed, part, i, res, forced=None):
         for c, x in outcome.items():
             if isinstance(x, BaseException) and not isinstance(x, (Boom, asyncio.CancelledError)):
                 key = type(x).__name__
-                if loss and key == "CommunicationError" and callers[c]["kind"].startswith("seq"):
+                if loss and key == "CommunicationError" and (callers[c]["kind"].startswith("seq") or loud):
+                    res.add("loss_reported_to_caller")
                     continue
                 if callers[c]["cancel_at"] is None and callers[c]["cancel_time"] is None and callers[c]["badclean"] is None:
                     res.violation(f"C15/{driver}/caller-raised/{key}", f"caller {c} ({callers[c]['kind']}) raised {key}: {x}", {**wit, "caller": c, "tb": short_tb(x)})
